@@ -26,6 +26,7 @@
     procLocked  process() holds the send lock while it sends and flushes an item   (false as found: D70)
     acLocked    ApplyConfig closes and re-dials while holding the send lock   (false as found: D70)
     rearm       send() arms the write deadline before every write (true in the code)
+    recoverReports  send()'s recover() turns a swallowed panic into an error   (false as found: D71)
 
   The queue component is C11's sequential model of RequestQueue (`Golib.Queue.Seq`): `enqueue`,
   `enqueueFail`, `dequeue` and `setCapacity` are `Queue.step` on `(queue, qcap)` with the operations
@@ -111,6 +112,7 @@ structure Cfg where
   procLocked : Bool
   acLocked : Bool
   rearm : Bool
+  recoverReports : Bool
   deriving DecidableEq, Repr
 
 inductive Pc where
@@ -156,6 +158,7 @@ structure St where
   now : Nat := 0                       -- time
   timeout : Nat := 60000               -- this.Timeout
   deadline : AMap Nat := []            -- write deadline of connection c
+  xclosed : Bool := false              -- the application called Close() since the current send began
 
 def St.pc (s : St) (t : Nat) : Pc := s.pcs.get t
 def St.setPc (s : St) (t : Nat) (p : Pc) : St := { s with pcs := s.pcs.set t p }
@@ -211,6 +214,8 @@ inductive Act where
   | reconfDialOk (t : Nat)       -- … Connect() succeeded (Unlock if acLocked)
   | reconfDialFail (t : Nat)
   | tick (d : Nat)               -- time passes
+  | extClose (t : Nat)           -- the application calls the public Close() (no lock)
+  | swallow (t : Nat)            -- send(): conn became nil under it; the nil dereference is recovered and `nil` returned
   deriving DecidableEq, Repr
 
 /-- the result of a finished `send()+Flush()` of thread `t` -/
@@ -229,7 +234,7 @@ variable (cfg : Cfg) (bytesOf : Nat → Bytes)
 def step (s : St) : Act → Option St
   | .lockSend t sid =>
     if t ≠ 0 ∧ cfg.useQueue = false ∧ s.pc t = .idle ∧ sid = s.nsid ∧ (cfg.sendLocked = true → s.lock = none) then
-      some ({ s with lock := some t, nsid := s.nsid + 1, handed := s.handed ++ [sid] }.setPc t (.made sid))
+      some ({ s with lock := some t, nsid := s.nsid + 1, handed := s.handed ++ [sid], xclosed := false }.setPc t (.made sid))
     else none
   | .connectOk t =>
     match s.pc t with
@@ -268,12 +273,12 @@ def step (s : St) : Act → Option St
   | .autoFlush t k =>
     match s.pc t with
     | .writing _ w _ =>
-      if k ≤ (s.buf.get w).length ∧ s.now ≤ s.deadline.get w then some (s.push w k) else none
+      if k ≤ (s.buf.get w).length ∧ s.now ≤ s.deadline.get w ∧ s.err.get w = false then some (s.push w k) else none
     | _ => none
   | .autoFlushErr t k =>
     match s.pc t with
     | .writing sid w _ =>
-      if k ≤ (s.buf.get w).length then some (((s.push w k).setErr w).setPc t (.failed sid)) else none
+      if k ≤ (s.buf.get w).length ∧ s.err.get w = false then some (((s.push w k).setErr w).setPc t (.failed sid)) else none
     | _ => none
   | .flushOk t =>
     match s.pc t, s.wr with
@@ -320,7 +325,7 @@ def step (s : St) : Act → Option St
     | .idle, .val sid =>
       if sid ≠ 0 ∧ (cfg.procLocked = true → s.lock = none) then
         some ({ s with queue := (Queue.step s.q .getNoWait).1.items,
-                       lock := if cfg.procLocked = true then some 0 else s.lock }.setPc 0 (.made sid))
+                       lock := if cfg.procLocked = true then some 0 else s.lock, xclosed := false }.setPc 0 (.made sid))
       else none
     | _, _ => none
   | .bgConnectOk =>
@@ -350,6 +355,13 @@ def step (s : St) : Act → Option St
       some ({ s with lock := if cfg.acLocked = true then none else s.lock }.setPc t .idle)
     else none
   | .tick d => some { s with now := s.now + d }
+  | .extClose t =>
+    if t ≠ 0 ∧ s.pc t = .idle then some { s with conn := none, xclosed := true } else none
+  | .swallow t =>
+    match s.pc t, s.wr with
+    | .made sid, some w =>
+      if cfg.recoverReports = false ∧ s.xclosed = true ∧ s.conn = none then some (s.setPc t (.wrote sid w)) else none
+    | _, _ => none
 
 def run : List Act → St → Option St
   | [], s => some s
